@@ -1036,3 +1036,72 @@ def r70(ctx: Ctx) -> RuleReport:
             rep.violation(key, fi.loc(n), f'`{nm}` may be None (a branch without a target, "(a :ARG0 )", or a node without a concept, "(a / )", parses to None): '
                           f'.{n.func.attr}() then raises AttributeError instead of the text being written')
     return rep
+
+
+@rule('R73', 'context that a function holds under the same name as an optional parameter of its callee is passed on (model, top, key, indent ...)')
+def r73(ctx: Ctx) -> RuleReport:
+    rep = RuleReport('R73', r73.title, floor=20)
+    frozen = {
+        ('penman._lexer:TokenIterator.expect', 'penman._lexer:TokenIterator.error', 'token'):
+            'the call sits in the handler of the failed self.next(): no token was bound',
+    }
+    n_calls = 0
+    for fi in ctx.repo.all_functions():
+        scope = set(fi.params) | {k for k, v in ctx.cg.local_assigns(fi).items() if v}
+        for call, ts in ctx.cg.calls_in(fi):
+            for t in ts:
+                callee, skip = None, 0
+                if t.kind == 'func':
+                    callee = t.func
+                    skip = 1 if callee.is_method() and 'staticmethod' not in callee.decorators() else 0
+                elif t.kind == 'class':
+                    callee, skip = t.cls.find_method('__init__'), 1
+                if callee is None:
+                    continue
+                if any(k.arg is None for k in call.keywords) or any(isinstance(x, ast.Starred) for x in call.args):
+                    continue
+                a = callee.node.args
+                names = [x.arg for x in a.posonlyargs + a.args][skip:]
+                nd = len(a.defaults)
+                optional = set(names[len(names) - nd:] if nd else []) | {k.arg for k, dv in zip(a.kwonlyargs, a.kw_defaults) if dv is not None}
+                passed = set(names[:len(call.args)]) | {k.arg for k in call.keywords if k.arg}
+                n_calls += 1
+                missing = sorted(p for p in optional - passed if p in scope)
+                key = f'{fi.module.name}:{fi.qualname}: {norm(call)[:60]}'
+                if not missing:
+                    if optional & passed & scope:
+                        rep.ok(key, fi.loc(call), f'passes {sorted(optional & passed & scope)}')
+                    continue
+                for p in missing:
+                    fz = frozen.get((fi.fq, callee.fq, p))
+                    if fz:
+                        rep.exception(key, fi.loc(call), fz)
+                    else:
+                        rep.violation(key + f' omits {p}', fi.loc(call),
+                                      f'{fi.qualname} holds `{p}` but calls {callee.qualname} without it: the callee falls back to its default '
+                                      f'({p}=None means the default model / the implicit top / no key ...), so the result is computed in another context than the caller\'s')
+    rep.analysed['calls_to_functions_with_optional_parameters'] = n_calls
+    return rep
+
+
+@rule('R74', 'no handler catches a blanket exception class: an error is either the documented one or it propagates')
+def r74(ctx: Ctx) -> RuleReport:
+    rep = RuleReport('R74', r74.title, floor=8)
+    BROAD = {'Exception', 'BaseException', 'builtins.Exception'}
+    for fi in ctx.repo.all_functions():
+        for n in walk_local(fi.node):
+            if not isinstance(n, ast.Try):
+                continue
+            for h in n.handlers:
+                types = [] if h.type is None else ([norm(x) for x in h.type.elts] if isinstance(h.type, ast.Tuple) else [norm(h.type)])
+                key = f'{fi.module.name}:{fi.qualname}: except {", ".join(types) or "<anything>"}'
+                broad = h.type is None or any(t in BROAD for t in types)
+                reraises = any(isinstance(x, ast.Raise) for x in ast.walk(h))
+                if broad and not reraises:
+                    rep.violation(key, fi.loc(h), 'the handler swallows every exception, including the ones that signal a defect (KeyError, AttributeError, '
+                                  'RecursionError ...): a failure is turned into a silently wrong or missing result instead of the documented error')
+                elif broad:
+                    rep.add(key, fi.loc(h), 'info', 'broad handler that re-raises')
+                else:
+                    rep.ok(key, fi.loc(h))
+    return rep
